@@ -293,11 +293,23 @@ def run_stats(sc, hist, violations):
     def bump(name, n=1):
         probes[name] = probes.get(name, 0) + n
 
+    failed_before = {}
+    constructed_specs = set()
     for ev in hist["events"]:
         op = ev["op"]
         kind = op[0]
         ops[kind] = ops.get(kind, 0) + 1
         target = ""
+        if kind == "READ":
+            hk = "%s.%s|%s" % (op[1], op[2], pkey(op[3]))
+            if hk in failed_before:
+                bump("failed_read_repeated_on_same_object")
+                if failed_before[hk] in WARNING_NAMES:
+                    bump("warning_as_error_read_repeated_on_same_object")
+            if ev.get("x"):
+                failed_before[hk] = ev["x"]
+        if kind in ("CONSTRUCT", "PROBE") and not ev.get("private"):
+            constructed_specs.add(op[3] if kind == "CONSTRUCT" else op[1])
         if kind in ("CONSTRUCT", "PROBE"):
             sid = op[3] if kind == "CONSTRUCT" else op[1]
             spec = sc["specs"][sid]
@@ -365,6 +377,20 @@ def run_stats(sc, hist, violations):
         inter.update(("%s/%s/%s;" % (op[1] if kind in ("CONSTRUCT", "READ", "DROP") else "-", kind, target)).encode())
     if kn["warnings"] == "error":
         bump("runs_with_warnings_as_errors")
+    # sharing actually exercised (not merely configured): >= 2 different specs built on one argument
+    users = {}
+    for sid in constructed_specs:
+        for a in model.spec_arg_ids(sc["specs"][sid]):
+            users.setdefault(a, set()).add(sid)
+    for a, sids in users.items():
+        if len(sids) >= 2:
+            k = sc["args"][a]["kind"]
+            bump("%s_object_used_by_2+_different_specs" % k)
+            types = {sc["specs"][x]["type"] for x in sids}
+            if k == "response" and types == {"cubeset"}:
+                bump("response_shared_by_2+_different_cube_sets")
+            if k == "response" and len(types) == 2:
+                bump("response_shared_by_cube_and_cube_set")
     nontrivial = any(
         (touched.get(a, 0) >= 2)
         or any(len(v) >= 2 for v in partitions_read.values())
